@@ -207,7 +207,8 @@ theorem C06_reasm_class_frames (q : Q) (c : Chunk) (hd : c.iData = false) :
 mixed run the reads served from the ordered container are a PREFIX of the ordered writes (the statement of
 `C01_reasm_ordered_data`) and, side by side, the reads served from `unordered` satisfy the statement of
 `C06_reasm_unordered_data` (each unordered message at most once, whole, with its PPI; everything taken completely is
-read or waits complete). -/
+read or waits complete). DATA framing; the I-DATA analogue (`orderedMID` next to `unorderedMIDMap` / `unorderedMID`) is NOT
+proved here — `MidInv` of C01 fixes `unorderedMID = []`; the same masking argument would apply. -/
 theorem C06_reasm_mixed_classes (SO SU : Sender) (hSO : SO.WF) (hSU : SU.UWF) (hsi : SU.si = SO.si)
     (σ : Nat → BitVec 16) (maxEntries : BitVec 32) (ops : List MOp)
     (hadm : AdmissibleM SO SU SO.dataFrag (SU.udataFrag σ) (new SO.si maxEntries) 0 [] [] ops) :
@@ -253,6 +254,8 @@ example : ((finalQ (S0.udataFrag fun _ => 7) (new S0.si 0) [.push 1 0, .push 0 1
            (finalQ (S0.udataFrag fun _ => 7) (new S0.si 0) [.push 1 0, .push 0 1, .push 1 1]).unorderedChunks.length)
           = ([53], 1) := by decide
 
+-- `chunkSet.isComplete` alone WOULD accept the splice B E B E of the two adjacent messages (consecutive TSNs across the wrap)
+example : chunksComplete ((msgIdx 0 2 ++ msgIdx 1 2).map (S0.ufrag fun _ => 7)) = true := by decide
 -- the same run as I-DATA (MID / FSN; all TSNs equal — never looked at)
 example : S0.UMWF := ⟨by unfold Sender.WF; decide, by decide⟩
 example : S0.deliveries (S0.uidataFrag fun _ _ => 7) (new S0.si 0) ops0 = [(53, [9, 8]), (51, [1, 2, 3])] := by decide
